@@ -16,8 +16,8 @@ PID = "C10"
 
 # genuine defects found by this check, pending a decision (fix in /repo or known_findings.json) — see DEFECTS.md
 PENDING = {
-    "xml-root:o-ex:rights": "DRMREL 1.0 is not recognised by its root element: an XML document <o-ex:rights xmlns:o-ex=...> without DOCTYPE is rejected (WBXML_ERROR_UNKNOWN_XML_LANGUAGE); the ':' in the name sends wbxml_tables_search_table through the namespace scan, which leaves the shared index at the end of the table, and Expat's expanded name never equals 'o-ex:rights'",
-    "xml-nsroot:syncml:metinf:MetInf": "a stand-alone <MetInf xmlns=\"syncml:metinf\"> without DOCTYPE is rejected: no namespace table starts with syncml:metinf and the root-element scan does not run after the namespace scan (shared index)",
+    "xml-root:o-ex:rights": "DRMREL 1.0 is not recognised by its root element: an XML document <o-ex:rights xmlns:o-ex=...> without DOCTYPE is rejected (WBXML_ERROR_UNKNOWN_XML_LANGUAGE); Expat delivers the expanded name 'http://odrl.net/1.1/ODRL-EX|rights'; the '|' sends wbxml_tables_search_table through the namespace scan, which leaves the shared index at the end of the table, and the expanded name never equals the table's 'o-ex:rights'",
+    "xml-nsroot:syncml:metinf|MetInf": "a stand-alone <MetInf xmlns=\"syncml:metinf\"> without DOCTYPE is rejected: no namespace table starts with syncml:metinf and the root-element scan does not run after the namespace scan (shared index)",
 }
 
 
@@ -169,10 +169,10 @@ def run(ctx):
 
 PINNED_SHARED = [["system-id", "http://www.microsoft.com/", 2401, 2402],
                  ["root", "wml", 1101, 1102], ["root", "wml", 1101, 1103], ["root", "wml", 1101, 1104],
-                 ["root", "channel", 1203, 1204], ["root", "o-ex:rights", 0, 1801],
+                 ["root", "channel", 1203, 1204],
                  ["root", "SyncML", 2201, 2101], ["root", "DevInf", 2202, 2102], ["root", "MetInf", 2203, 2103],
                  ["root", "SyncML", 2201, 2001], ["root", "DevInf", 2202, 2002], ["root", "WV-CSP-Message", 2301, 2302],
-                 ["ns-root", "syncml:devinf:DevInf", 2202, 2102], ["ns-root", "syncml:devinf:DevInf", 2202, 2002]]
+                 ["ns-root", "syncml:devinf|DevInf", 2202, 2102], ["ns-root", "syncml:devinf|DevInf", 2202, 2002]]
 
 
 def shared_identifiers_py(tj):
@@ -186,7 +186,7 @@ def shared_identifiers_py(tj):
 
     def by_root(root):
         idx = 0
-        if ":" in root:
+        if "|" in root:
             for i, l in enumerate(langs):
                 if ns0(l) is not None and root.lower().startswith(ns0(l).lower()):
                     return l
@@ -214,7 +214,7 @@ def shared_identifiers_py(tj):
                 out.append(["root", l["root"], 0 if f is None else f["id"], l["id"]])
     for l in langs:
         if ns0(l) is not None and l["root"] is not None:
-            r = ns0(l) + ":" + l["root"]
+            r = ns0(l) + "|" + l["root"]
             f = by_root(r)
             if f is None or f["id"] != l["id"]:
                 out.append(["ns-root", r, 0 if f is None else f["id"], l["id"]])
